@@ -56,6 +56,10 @@ type c12Plan struct {
 	// IdBase > 0: the connection has handed out this many channel ids before (its counter is set to it): the
 	// ids run out at 65535 - the tasks beyond that must be refused, not given an id that wraps around.
 	IdBase int `json:"id_base,omitempty"`
+	// BadAck: the k-th SETUP the peer sees (0-based) is not acknowledged but answered with something else - 1: a
+	// header-only packet of another type, 2: a DONE package. That NewChannel must fail and leave no channel behind:
+	// a packet the server sends for the id afterwards is a packet for a channel that does not exist.
+	BadAck map[int]int `json:"bad_ack,omitempty"`
 }
 
 type c12 struct{}
@@ -122,6 +126,9 @@ func (c12) Gen(r *Rand, idx int, tier string) interface{} {
 	}
 	if r.Pct(10) {
 		p.CloseEarly = 1 + r.Intn(60)
+	}
+	if r.Pct(8) {
+		p.BadAck = map[int]int{r.Intn(len(p.Tasks)): 1 + r.Intn(2)}
 	}
 	if r.Pct(6) && len(p.Tasks) > 1 {
 		p.IdBase = 65536 - r.Intn(len(p.Tasks)+1)
@@ -200,6 +207,11 @@ func (c12) Shrink(plan interface{}) []interface{} {
 	if p.IdBase > 0 {
 		q := *p
 		q.IdBase = 0
+		out = append(out, &q)
+	}
+	if len(p.BadAck) > 0 {
+		q := *p
+		q.BadAck = nil
 		out = append(out, &q)
 	}
 	return out
@@ -334,9 +346,34 @@ func (c12) Run(plan interface{}, schedSeed uint64, replay []simrt.Choice, lenien
 			ci.nextNr = (int(pk.H.PacketNr) + 1) % 256
 		}
 	}
+	setupsSeen, badAcks, postBad := 0, 0, 0
 	pr.OnHeaderOnly = func(pk peer.RecvPacket) {
 		if pk.H.Type == peer.BufSetup {
-			enqueue(pk.H.Channel, [][]byte{peer.MakePacket(peer.BufProtack, peer.BufstatEOM, pk.H.Channel, 0, nil)})
+			k := setupsSeen
+			setupsSeen++
+			c := pk.H.Channel
+			switch p.BadAck[k] {
+			case 1:
+				badAcks++
+				s.Fault("setup-not-acknowledged")
+				enqueue(c, [][]byte{peer.MakePacket(peer.BufClose, peer.BufstatEOM, c, 0, nil)})
+			case 2:
+				badAcks++
+				s.Fault("setup-not-acknowledged")
+				enqueue(c, peer.Packetise(peer.Done(0, 0, 0), nil, peer.BufResponse, c, true))
+			default:
+				enqueue(c, [][]byte{peer.MakePacket(peer.BufProtack, peer.BufstatEOM, c, 0, nil)})
+				return
+			}
+			if ci := chans[c]; ci != nil {
+				ci.live = false // the server refused it
+			}
+			if p.CloseEarly == 0 {
+				postBad++
+				s.After(time.Millisecond, "packet for the refused channel", func() {
+					enqueue(c, peer.Packetise(peer.Done(0x10, 0, 616161), nil, peer.BufResponse, c, true))
+				})
+			}
 		}
 	}
 	pr.OnMsg = func(m *ClientMsg) {
@@ -397,6 +434,7 @@ func (c12) Run(plan interface{}, schedSeed uint64, replay []simrt.Choice, lenien
 		newCall, newRet, closeCall, closeRet int
 		foreign                              []string
 		skipped                              bool
+		refused                              bool
 	}
 	res := make([]*taskRes, len(p.Tasks))
 	for i := range res {
@@ -445,6 +483,10 @@ func (c12) Run(plan interface{}, schedSeed uint64, replay []simrt.Choice, lenien
 						// the connection error about an unknown-channel packet surfaced here (documented relaxation)
 						tr.invalid++
 						tr.skipped = true
+						return
+					}
+					if len(p.BadAck) > 0 && (strings.Contains(err.Error(), "header-only") || strings.Contains(err.Error(), "protack")) {
+						tr.refused = true
 						return
 					}
 					tr.newErr = err.Error()
@@ -598,7 +640,7 @@ func (c12) Run(plan interface{}, schedSeed uint64, replay []simrt.Choice, lenien
 	if registered >= 0 {
 		want := 1
 		for ti, tr := range res {
-			if !tr.skipped && tr.newErr == "" && p.Tasks[ti].NoClose {
+			if !tr.skipped && !tr.refused && tr.newErr == "" && p.Tasks[ti].NoClose {
 				want++
 			}
 		}
@@ -612,10 +654,15 @@ func (c12) Run(plan interface{}, schedSeed uint64, replay []simrt.Choice, lenien
 	totalInvalid := mainInvalid
 	concurrentSetup := false
 	exhausted := 0
+	refused := 0
 	for ti, tr := range res {
 		tp := p.Tasks[ti]
 		if tr.skipped {
 			totalInvalid += tr.invalid
+			continue
+		}
+		if tr.refused {
+			refused++
 			continue
 		}
 		if p.IdBase > 0 && strings.Contains(tr.newErr, "exhausted all channel IDs") {
@@ -671,7 +718,27 @@ func (c12) Run(plan interface{}, schedSeed uint64, replay []simrt.Choice, lenien
 			trailingPackets++
 		}
 	}
-	must := unknownSent + postCloseSent
+	skippedN := 0
+	for _, tr := range res {
+		if tr.skipped {
+			skippedN++
+		}
+	}
+	// (a NewChannel that was handed an "invalid channel" connection error first has failed already, whatever its
+	// setup was answered with)
+	if refused > badAcks || refused+skippedN < badAcks {
+		v.Violate("bad-ack", "setup answered with something else than an acknowledgement", "%d SETUP packets were answered with a packet that is not an acknowledgement, %d NewChannel calls failed for that reason (NewChannel results: %s)", badAcks, refused, func() string {
+			var o []string
+			for ti, tr := range res {
+				o = append(o, fmt.Sprintf("c%d: err=%q skipped=%v refused=%v", ti+1, tr.newErr, tr.skipped, tr.refused))
+			}
+			return strings.Join(o, "; ")
+		}())
+	}
+	if badAcks > 0 {
+		v.Probe("setup-refused")
+	}
+	must := unknownSent + postCloseSent + postBad
 	// a NewChannel that failed (it consumed one of these reports) leaves no channel behind: the acknowledgement the
 	// server still sends for it is one more packet for a channel that does not exist
 	skippedTasks := 0
